@@ -51,21 +51,56 @@ Theorem C04_no_cancel_all_done : forall g c s,
 Proof. exact no_cancel_all_done. Qed.
 Print Assumptions C04_no_cancel_all_done.
 
-(* ---- completions-map race ---- *)
-(* the completions map is written after Walk handed it to its caller only on the cancellation
-   paths (fail-fast triggered or outer context cancelled) *)
-Theorem C04_no_race_partial : forall g c s,
-  topo g -> wf_graph g -> reachable g c s ->
-  race s = true -> ret s = true /\ (fft s = true \/ ctxc s = true).
-Proof. exact no_race_partial. Qed.
-Print Assumptions C04_no_race_partial.
+(* ---- the completions map handed to the caller ---- *)
+(* [snap s] is the map Walk returned (a copy made under doneMutex, Walker.v), which the caller reads
+   without any lock at any time after the return; [own s] is the walker's own map, which node
+   routines still running after a return through ctx.Done keep writing.  No event after the return
+   changes the caller's map (before the fix every late FinishOk / FinishFail / Reject did) ... *)
+Theorem C04_no_race : forall g c s e s',
+  step g c s e = Some s' -> ret s = true -> forall n, snap s' n = snap s n.
+Proof. exact no_race. Qed.
+Print Assumptions C04_no_race.
 
-(* ... and there it does happen: fail-fast, two independent nodes, one fails, Walk returns,
-   the other one completes afterwards *)
-Theorem C04_no_race_refuted :
-  exists g c evs s, run g c evs = Some s /\ race s = true.
-Proof. exact no_race_refuted. Qed.
-Print Assumptions C04_no_race_refuted.
+(* ... however many events follow *)
+Theorem C04_no_race_run : forall g c evs s s',
+  run_from g c s evs = Some s' -> ret s = true -> forall n, snap s' n = snap s n.
+Proof. exact no_race_run. Qed.
+Print Assumptions C04_no_race_run.
+
+(* what is handed out is exactly what was recorded at the moment of the return *)
+Theorem C04_snapshot_exact : forall g c s s',
+  step g c s WalkReturn = Some s' -> forall n, snap s' n = own s n /\ own s' n = own s n.
+Proof. exact snapshot_exact. Qed.
+Print Assumptions C04_snapshot_exact.
+
+(* every entry the caller sees is and remains the entry of the walker's own map *)
+Theorem C04_snapshot_sound : forall g c s n,
+  reachable g c s ->
+  (snap s n = Success -> st s n = Ok) /\ (snap s n = Failure -> st s n = Failed).
+Proof. exact snapshot_sound. Qed.
+Print Assumptions C04_snapshot_sound.
+
+(* without fail-fast trigger and without interrupt the caller sees the whole, final map (as before the fix) *)
+Theorem C04_snapshot_complete : forall g c s,
+  reachable g c s -> ret s = true -> fft s = false -> ctxc s = false ->
+  forall n, n < size g -> snap s n = own s n /\ is_final (st s n) = true.
+Proof. exact snapshot_complete. Qed.
+Print Assumptions C04_snapshot_complete.
+
+(* a walk ended by fail-fast shows its caller a failure (cmds/build.go derives the exit status from it) *)
+Theorem C04_snapshot_failfast_has_failure : forall g c s s',
+  reachable g c s -> step g c s WalkReturn = Some s' -> fft s = true ->
+  exists a, a < size g /\ snap s' a = Failure.
+Proof. exact snapshot_failfast_has_failure. Qed.
+Print Assumptions C04_snapshot_failfast_has_failure.
+
+(* non-vacuity: fail-fast, two independent nodes, one fails, Walk returns, the other one completes
+   afterwards; its completion reaches the walker's own map and not the caller's *)
+Theorem C04_late_completion_example :
+  exists g c evs s, run g c evs = Some s /\ ret s = true /\
+    own s 0 = Failure /\ snap s 0 = Failure /\ own s 1 = Success /\ snap s 1 = Absent.
+Proof. exact late_completion_example. Qed.
+Print Assumptions C04_late_completion_example.
 
 (* ------------------------------------------------------------------ restore part *)
 (* C04, restore part -- a directory restore never hangs.  Statements only.
